@@ -53,4 +53,9 @@ edit avail-flip      $T/pipeline_conn.go 's.Available = c.nextQid+c.reserved <= 
 edit close-helper    $R/server_quic.go $'\t\ts.l.Close()\n\t\ts.qt.Close()\n\t\ts.uc.Close()' $'\t\tcloseAll(s.l, s.qt, s.uc)' $'\nfunc closeAll(cs ...interface{ Close() error }) {\n\tfor _, c := range cs {\n\t\tc.Close()\n\t}\n}\n'
 edit wiring-local    $R/limiter.go $'\t\t\tV6Mask: cfg.Client.V6Mask,' $'\t\t\tV6Mask: cfg.Client.V6Mask + 0,'
 edit tcp-readfull    internal/dnsutils/net_io.go $'\tnr, err := io.ReadFull(c, hdrBuf)\n\tn += nr' $'\tnr, err := io.ReadAtLeast(c, hdrBuf, len(hdrBuf))\n\tn += nr'
+edit rename-newoff   $D/name.go 'newOff' 'nextField'
+edit rename-ptr      $D/name.go 'ptr' 'hops'
+edit rename-pop-m    $D/msg.go $'func PopEDNS0(m *Msg) Resource {\n\tend := len(m.Additionals) - 1\n\tfor i := end; i >= 0; i-- {\n\t\tr := m.Additionals[i]\n\t\tif r.Hdr().Type == TypeOPT {\n\t\t\tm.Additionals[i] = m.Additionals[end]\n\t\t\tm.Additionals[end] = nil\n\t\t\tm.Additionals = m.Additionals[:end]' $'func PopEDNS0(msg *Msg) Resource {\n\tm := msg\n\tend := len(m.Additionals) - 1\n\tfor i := end; i >= 0; i-- {\n\t\tr := m.Additionals[i]\n\t\tif r.Hdr().Type == TypeOPT {\n\t\t\tlast := m.Additionals[end]\n\t\t\tm.Additionals[i] = last\n\t\t\tm.Additionals[end] = nil\n\t\t\tm.Additionals = m.Additionals[:end]'
+edit loadca-var      $R/tls.go 'caCertPool := x509.NewCertPool()' 'p := x509.NewCertPool(); caCertPool := p'
+edit quic-live-var   $T/quic_transport.go $'\t\tif !ctxIsDone(t.c.Context()) {' $'\t\tcc := t.c\n\t\tif !ctxIsDone(cc.Context()) {'
 rm -rf $out
